@@ -401,6 +401,12 @@ fn part_succ(k: &Kind, cal: &Calendar, n: i64, a: &F, b: &F) -> Outcome {
             if day0_model(k, b) && b.y == a.y && b.m == a.m + 1 && a.d == 29 && a.dim == 30 && b.doy == a.doy + 1 {
                 sig = format!("C16/succ/{id}/day-30-of-month-reported-as-day-0-of-next-month");
             }
+            // defect model (calendar library, a handful of far Hebrew years): the year ends on its last day by its own
+            // fields, but the next ISO day is day 2..=8 of the new year: the days in between exist only "forwards"
+            // (fields -> ISO gives them ISO dates that read back as the old year)
+            if a.doy == a.diy && a.d as u16 == a.dim && b.y == a.y + 1 && b.code == "M01" && b.d > 1 && b.d <= 8 && b.doy == b.d as u16 {
+                sig = format!("C16/succ/{id}/new-year-begins-after-day-1(library-year-lengths-disagree)");
+            }
             if k.lunisolar && (a.miy == 13 || b.miy == 13) {
                 let an = code_parts(&a.code).map(|c| c.0);
                 let bn = code_parts(&b.code).map(|c| c.0);
@@ -659,6 +665,14 @@ fn part_year_month(k: &Kind, cal: &Calendar, n: i64, f: &F) -> Outcome {
                                 // same root cause as C16/rebuild/ethioaa/by-year/year-read-as-era-year, seen through
                                 // PlainYearMonth::from_partial
                                 return o.fail("C16/yearmonth/ethioaa/by-year/year-read-as-era-year", format!("year {} month code {}", f.y, f.code), format!("year {y} month code {code}"));
+                            }
+                            // defect model (calendar library): the first day of that month, built as a *date* from the same
+                            // fields, does not read back as that month either - nothing specific to year-months
+                            let as_date = guard(|| PlainDate::from_partial(pd_date.clone(), Some(ArithmeticOverflow::Constrain)).map(|d| (d.year(), d.month_code().as_str().to_string(), d.day())));
+                            if let Ok(Ok((dy, dcode, dd))) = &as_date {
+                                if (*dy, dcode.as_str()) == (y, code.as_str()) && (*dy != f.y || *dcode != f.code) {
+                                    return o.fail(format!("C16/yearmonth/{id}/{route}/first-day-of-the-month-does-not-read-back-as-a-date-either"), format!("year {} month code {}", f.y, f.code), format!("date from (year {}, {}, day 1) reads back year {dy} {dcode} day {dd}", f.y, f.code));
+                                }
                             }
                             return o.fail(format!("C16/yearmonth/{id}/{route}/describes-another-month"), format!("year {} month code {}", f.y, f.code), format!("year {y} month code {code} (ISO {}-{:02})", ym.iso_year(), ym.iso_month()));
                         }
